@@ -138,6 +138,16 @@ func runCase(c *Case) *Result {
 	raceBefore := raceLogSize()
 
 	reference := func() {
+		key := c
+		if c.refOf != nil {
+			key = c.refOf
+		}
+		if refCache.c == key && !c.ConcFirst {
+			ref, wantRaw, solo = refCache.ref, refCache.want, refCache.solo
+			res.SoloSteps = solo
+			return
+		}
+		defer func() { refCache.c, refCache.ref, refCache.want, refCache.solo = key, ref, wantRaw, solo }()
 		zzsim.SetMode(zzsim.ModeOff)
 		ref = buildWorld(c, nil, true)
 		ref.rs.solo = true
@@ -230,6 +240,60 @@ func runCase(c *Case) *Result {
 		res.Probes["foreign_goroutine_yields"] = st.Foreign
 	}
 	return res
+}
+
+// refCache keeps the sequential reference of the case executed last, for the
+// bounded systematic search that runs one case under many schedules.
+var refCache struct {
+	c    *Case
+	ref  *World
+	want [][]lazyOut
+	solo uint64
+}
+
+// runPB1 executes a case under every schedule with exactly one preemption:
+// start with task t, preempt it at its k-th decision point, run task u (and
+// then everybody else) to completion, resume t.  It returns the number of
+// schedules run and the first failing result, if any.
+func runPB1(c *Case, maxRuns int) (int, *Result) {
+	base := *c
+	base.Sched = SchedM{Strategy: "replay", Seed: c.Sched.Seed}
+	base.ConcFirst = false
+	base.refOf = c
+	first := base
+	first.Sched.Replay = []zzsim.Switch{{From: -1, To: 0}}
+	r0 := runCase(&first)
+	if r0.Verdict != "ok" {
+		return 1, r0
+	}
+	n := 1
+	lm := r0.Stats.LocalMax
+	for t := range c.Tasks {
+		for o := range c.Tasks[t].Ops {
+			if o >= 8 {
+				break
+			}
+			for k := uint64(1); k <= lm[t][o]; k++ {
+				for u := range c.Tasks {
+					if u == t {
+						continue
+					}
+					if n >= maxRuns {
+						return n, nil
+					}
+					cc := base
+					cc.Sched.Replay = []zzsim.Switch{{From: -1, To: t}, {From: t, Op: int32(o), Local: k, To: u}}
+					r := runCase(&cc)
+					n++
+					if r.Verdict != "ok" {
+						r.Stats.Schedule = cc.Sched.Replay
+						return n, r
+					}
+				}
+			}
+		}
+	}
+	return n, nil
 }
 
 // diffWindow cuts both outcomes down to the neighbourhood of their first
